@@ -156,44 +156,33 @@ func nodeDetector(name, ext string) func([]byte, uint32) bool {
 
 var detCache = map[string]func([]byte, uint32) bool{}
 
+// pinnedTextChildren is the order of text/plain's children in the pinned tree
+// (tree.go:83). The "higher-priority signature" exception of C08 / C13 is
+// decided against this fixed order, NOT against the running tree: a change that
+// reorders the tree moves real documents to other formats and must not move
+// the oracle along with it.
+var pinnedTextChildren = []string{"text/html", "image/svg+xml", "text/xml", "text/x-php", "text/javascript", "text/x-lua", "text/x-perl",
+	"text/x-python", "application/json", "application/x-ndjson", "text/rtf", "application/x-subrip", "text/x-tcl", "text/csv",
+	"text/tab-separated-values", "text/vcard", "text/calendar", "application/warc", "text/vtt"}
+
 // higherPriority reports whether result m lies on a branch that the first-match
-// walk tries before `target` (a child of text/plain, e.g. application/json):
-// a different root child than text/plain, or an earlier child of text/plain.
-// That is the "higher-priority signature" exception of C08/C13/C18.
+// walk of the pinned tree tries before `target` (a child of text/plain, e.g.
+// application/json): a root child other than text/plain (text/plain is the
+// last root child), or an earlier child of text/plain.
 func higherPriority(m *mimetype.MIME, targetName, targetExt string) bool {
 	ch := chain(m)
-	nodes := mimetype.VerifNodes()
-	// locate text/plain among root children and target among its children
-	var text = -1
-	for _, ci := range nodes[0].Children {
-		if nodes[ci].Name == "text/plain" {
-			text = ci
-		}
-	}
-	if text < 0 {
-		return false
-	}
 	if len(ch) >= 2 && ch[len(ch)-2] != "text/plain" {
-		// some other root child: is it consulted before text/plain?
-		for _, ci := range nodes[0].Children {
-			if ci == text {
-				return false
-			}
-			if nodes[ci].Name == ch[len(ch)-2] {
-				return true
-			}
-		}
-		return false
+		return true
 	}
 	if len(ch) < 3 {
-		return false // text/plain itself
+		return false // text/plain itself (or the root)
 	}
 	lvl2 := ch[len(ch)-3]
-	for _, ci := range nodes[text].Children {
-		if nodes[ci].Name == targetName && nodes[ci].Ext == targetExt {
+	for _, n := range pinnedTextChildren {
+		if n == targetName {
 			return false
 		}
-		if nodes[ci].Name == lvl2 {
+		if n == lvl2 {
 			return true
 		}
 	}
